@@ -72,6 +72,16 @@ impl BinaryOctetVec {
         result
     }
 
+    #[cfg(raptorq_verif)]
+    pub fn verif_to_octets(&self) -> Vec<u8> {
+        self.to_octet_vec()
+    }
+
+    #[cfg(raptorq_verif)]
+    pub fn verif_words(&self) -> &[u64] {
+        &self.elements
+    }
+
     pub fn padding_bits(&self) -> usize {
         (BinaryOctetVec::WORD_WIDTH - (self.length % BinaryOctetVec::WORD_WIDTH))
             % BinaryOctetVec::WORD_WIDTH
@@ -97,6 +107,12 @@ pub fn fused_addassign_mul_scalar_binary(
     assert_eq!(octets.len(), other.len());
     if octets.is_empty() {
         return;
+    }
+    #[cfg(raptorq_verif)]
+    {
+        if verif_kernels::forced_fma_binary(octets, other, scalar) {
+            return;
+        }
     }
     #[cfg(all(any(target_arch = "x86", target_arch = "x86_64"), feature = "std"))]
     {
@@ -614,6 +630,12 @@ unsafe fn mulassign_scalar_ssse3(octets: &mut [u8], scalar: &Octet) {
 
 #[inline]
 pub fn mulassign_scalar(octets: &mut [u8], scalar: &Octet) {
+    #[cfg(raptorq_verif)]
+    {
+        if verif_kernels::forced_mulassign(octets, scalar) {
+            return;
+        }
+    }
     #[cfg(all(any(target_arch = "x86", target_arch = "x86_64"), feature = "std"))]
     {
         if is_x86_feature_detected!("avx512f") && is_x86_feature_detected!("avx512bw") {
@@ -828,6 +850,12 @@ pub fn fused_addassign_mul_scalar(octets: &mut [u8], other: &[u8], scalar: &Octe
     );
 
     assert_eq!(octets.len(), other.len());
+    #[cfg(raptorq_verif)]
+    {
+        if verif_kernels::forced_fma(octets, other, scalar) {
+            return;
+        }
+    }
     #[cfg(all(any(target_arch = "x86", target_arch = "x86_64"), feature = "std"))]
     {
         if is_x86_feature_detected!("avx512f") && is_x86_feature_detected!("avx512bw") {
@@ -1045,6 +1073,12 @@ unsafe fn add_assign_ssse3(octets: &mut [u8], other: &[u8]) {
 
 #[inline]
 pub fn add_assign(octets: &mut [u8], other: &[u8]) {
+    #[cfg(raptorq_verif)]
+    {
+        if verif_kernels::forced_add_assign(octets, other) {
+            return;
+        }
+    }
     #[cfg(all(any(target_arch = "x86", target_arch = "x86_64"), feature = "std"))]
     {
         if is_x86_feature_detected!("avx512f") {
@@ -1081,6 +1115,162 @@ pub fn add_assign(octets: &mut [u8], other: &[u8]) {
         // }
     }
     return add_assign_fallback(octets, other);
+}
+
+// Verification hooks: every private kernel individually, plus an override that forces one kernel
+// family through the public dispatchers (so whole encode/decode runs can be repeated per kernel).
+#[cfg(raptorq_verif)]
+pub mod verif_kernels {
+    use super::*;
+    use core::sync::atomic::{AtomicU8, Ordering};
+
+    pub const AUTO: u8 = 0;
+    pub const AVX512: u8 = 1;
+    pub const AVX2: u8 = 2;
+    pub const SSSE3: u8 = 3;
+    pub const FALLBACK: u8 = 4;
+
+    static FORCED: AtomicU8 = AtomicU8::new(AUTO);
+
+    /// Force the dispatchers to use the given kernel family (AUTO restores CPU detection).
+    pub fn force(kind: u8) {
+        assert!(kind == AUTO || supported(kind));
+        FORCED.store(kind, Ordering::SeqCst);
+    }
+
+    pub fn forced() -> u8 {
+        FORCED.load(Ordering::Relaxed)
+    }
+
+    /// Is the kernel family compiled in and executable on this CPU?
+    pub fn supported(kind: u8) -> bool {
+        match kind {
+            FALLBACK => true,
+            #[cfg(all(any(target_arch = "x86", target_arch = "x86_64"), feature = "std"))]
+            AVX512 => is_x86_feature_detected!("avx512f") && is_x86_feature_detected!("avx512bw"),
+            #[cfg(all(any(target_arch = "x86", target_arch = "x86_64"), feature = "std"))]
+            AVX2 => is_x86_feature_detected!("avx2") && is_x86_feature_detected!("bmi1"),
+            #[cfg(all(any(target_arch = "x86", target_arch = "x86_64"), feature = "std"))]
+            SSSE3 => is_x86_feature_detected!("ssse3"),
+            _ => false,
+        }
+    }
+
+    /// `octets ^= other` with exactly the given kernel. Returns false if it does not exist.
+    pub fn add_assign_with(kind: u8, octets: &mut [u8], other: &[u8]) -> bool {
+        if !supported(kind) {
+            return false;
+        }
+        match kind {
+            FALLBACK => add_assign_fallback(octets, other),
+            #[cfg(all(any(target_arch = "x86", target_arch = "x86_64"), feature = "std"))]
+            AVX512 => unsafe { add_assign_avx512(octets, other) },
+            #[cfg(all(any(target_arch = "x86", target_arch = "x86_64"), feature = "std"))]
+            AVX2 => unsafe { add_assign_avx2(octets, other) },
+            #[cfg(all(any(target_arch = "x86", target_arch = "x86_64"), feature = "std"))]
+            SSSE3 => unsafe { add_assign_ssse3(octets, other) },
+            _ => return false,
+        }
+        true
+    }
+
+    /// `octets *= scalar` with exactly the given kernel.
+    pub fn mulassign_with(kind: u8, octets: &mut [u8], scalar: &Octet) -> bool {
+        if !supported(kind) {
+            return false;
+        }
+        match kind {
+            FALLBACK => mulassign_scalar_fallback(octets, scalar),
+            #[cfg(all(any(target_arch = "x86", target_arch = "x86_64"), feature = "std"))]
+            AVX512 => unsafe { mulassign_scalar_avx512(octets, scalar) },
+            #[cfg(all(any(target_arch = "x86", target_arch = "x86_64"), feature = "std"))]
+            AVX2 => unsafe { mulassign_scalar_avx2(octets, scalar) },
+            #[cfg(all(any(target_arch = "x86", target_arch = "x86_64"), feature = "std"))]
+            SSSE3 => unsafe { mulassign_scalar_ssse3(octets, scalar) },
+            _ => return false,
+        }
+        true
+    }
+
+    /// `octets ^= scalar * other` with exactly the given kernel (lengths must be equal, as the
+    /// public dispatcher asserts before it calls a kernel).
+    pub fn fma_with(kind: u8, octets: &mut [u8], other: &[u8], scalar: &Octet) -> bool {
+        assert_eq!(octets.len(), other.len());
+        if !supported(kind) {
+            return false;
+        }
+        match kind {
+            FALLBACK => fused_addassign_mul_scalar_fallback(octets, other, scalar),
+            #[cfg(all(any(target_arch = "x86", target_arch = "x86_64"), feature = "std"))]
+            AVX512 => unsafe { fused_addassign_mul_scalar_avx512(octets, other, scalar) },
+            #[cfg(all(any(target_arch = "x86", target_arch = "x86_64"), feature = "std"))]
+            AVX2 => unsafe { fused_addassign_mul_scalar_avx2(octets, other, scalar) },
+            #[cfg(all(any(target_arch = "x86", target_arch = "x86_64"), feature = "std"))]
+            SSSE3 => unsafe { fused_addassign_mul_scalar_ssse3(octets, other, scalar) },
+            _ => return false,
+        }
+        true
+    }
+
+    /// `octets ^= scalar * bits` with exactly the given kernel. SSSE3 and FALLBACK have no
+    /// dedicated binary kernel: they take the dispatcher's generic path (unpack, then the
+    /// byte kernels of that family).
+    pub fn fma_binary_with(
+        kind: u8,
+        octets: &mut [u8],
+        other: &BinaryOctetVec,
+        scalar: &Octet,
+    ) -> bool {
+        assert_eq!(octets.len(), other.len());
+        if !supported(kind) {
+            return false;
+        }
+        if octets.is_empty() {
+            return true;
+        }
+        match kind {
+            #[cfg(all(any(target_arch = "x86", target_arch = "x86_64"), feature = "std"))]
+            AVX512 => unsafe { fused_addassign_mul_scalar_binary_avx512(octets, other, scalar) },
+            #[cfg(all(any(target_arch = "x86", target_arch = "x86_64"), feature = "std"))]
+            AVX2 => unsafe { fused_addassign_mul_scalar_binary_avx2(octets, other, scalar) },
+            _ => {
+                if *scalar == Octet::one() {
+                    add_assign_with(kind, octets, &other.to_octet_vec());
+                } else {
+                    fma_with(kind, octets, &other.to_octet_vec(), scalar);
+                }
+            }
+        }
+        true
+    }
+
+    #[inline]
+    pub(super) fn forced_add_assign(octets: &mut [u8], other: &[u8]) -> bool {
+        let kind = forced();
+        kind != AUTO && add_assign_with(kind, octets, other)
+    }
+
+    #[inline]
+    pub(super) fn forced_mulassign(octets: &mut [u8], scalar: &Octet) -> bool {
+        let kind = forced();
+        kind != AUTO && mulassign_with(kind, octets, scalar)
+    }
+
+    #[inline]
+    pub(super) fn forced_fma(octets: &mut [u8], other: &[u8], scalar: &Octet) -> bool {
+        let kind = forced();
+        kind != AUTO && fma_with(kind, octets, other, scalar)
+    }
+
+    #[inline]
+    pub(super) fn forced_fma_binary(
+        octets: &mut [u8],
+        other: &BinaryOctetVec,
+        scalar: &Octet,
+    ) -> bool {
+        let kind = forced();
+        kind != AUTO && fma_binary_with(kind, octets, other, scalar)
+    }
 }
 
 #[cfg(feature = "std")]
